@@ -9,17 +9,17 @@ prop("C04",
                 "snapshots, dead events, ...) preserved by EVERY move and lifted over all finite histories: "
                 "live_bound_pod_keeps_ip, no_unassign_for_live_pod, late_event_keeps_ip, fact_* "
                 "(regenerated guard/lock shapes). Counter theorems: live_bound_pod_keeps_ip_counter (model without the unbind "
-                "UID guard = fixed defect D2, replay corpus/C04/d2.ops), stale_lister_bind_counter and stale_record_counter "
-                "(models of the code before 'fix: bind stored a stale pod uid ...': the two defects this check found, now "
-                "fixed; their replays are regression histories).",
-     level_note="Scope of the theorems = the decidable side conditions Galaxy.Plugin.assumed, all within the property's own scope: "
-                "non-empty names, bind requests carry the pod UID, a reload keeps live pods' addresses configured (the property "
-                "says so). Beyond the property's quantifier the theorems also cover one failing apiserver/provider call per "
-                "move, except a failing store delete inside ConfigurePool (known finding "
-                "reload-delete-fault-resurrects-stale-record, replay corpus/C04/reload-delete-fault.ops). "
-                "Scalable custom resources (TApp with a scale subresource), Preempt and admin reservations are not modelled.",
+                "UID guard = fixed defect D2, replay corpus/C04/d2.ops), stale_lister_bind_counter, stale_record_counter and "
+                "per_key_release_counter (models of the code before the three later fixes, facts false).",
+     level_note="Scope of the theorems = the decidable side conditions Galaxy.Plugin.assumed, all the property's own: non-empty "
+                "names, bind requests carry the pod UID, a reload keeps live pods' addresses configured. Beyond the property's "
+                "quantifier the theorems also cover one failing apiserver call and one failing provider call per move at any "
+                "position (a failed ConfigurePool delete leaves an orphan object, State.orphans). Three defects found by this "
+                "check are fixed in /repo (stale-lister bind, bind beside a stale record, per-key resync/Release); their replays "
+                "in corpus/C04 are regression histories. Scalable custom resources (TApp with a scale subresource), Preempt and "
+                "admin reservations are not modelled.",
      technique="Lean 4 inductive invariant over an executable model parameterised by regenerated structural facts (factgen plugin: "
-               "unbindChecksUID, bindChecksUID, bindChecksListerUID, bindUidGuardCoversWholeKey, release/resync re-read under lockPod, lister-then-apiserver, lockPod at six entry "
+               "unbindChecksUID, bindChecksUID, bindChecksListerUID, bindUidGuardCoversWholeKey, resyncAndReleaseCheckWholeKey, release/resync re-read under lockPod, lister-then-apiserver, lockPod at six entry "
                "points) + differential correspondence of every step (result class, observed choices, full digest of memory, "
                "store, pods, events, provider) of the REAL FloatingIPPlugin built in-process on fake clientsets behind "
                "call-counting fault-injecting decorators with harness-controlled listers; monitor = the C04 statement on the "
